@@ -22,7 +22,8 @@
 using rtosc::enum_key;              /* the real code finds these by argument-dependent lookup (not in CBMC) */
 using rtosc::enum_key_from_msg;
 
-#include <rtosc/port-sugar.h>       /* THE REAL HEADER */
+#include "c14/port-sugar.h"         /* THE REAL HEADER: copy generated on every run by props/C14.py, byte-identical
+                                     * unless the may-fire rule decl-in-cond rewrote `if(T x = e)` (logged) */
 #include "c14_boil.h"               /* generated: #undef rBOIL_BEGIN + the header's own prologue as a function header */
 
 #ifndef C14_OP
